@@ -111,10 +111,10 @@ type world struct {
 	sc1, sc2 uint64 // compass contract ids: sc1 active, sc2 saved
 	userVal  string
 	userID   uint64
-	base     [3]sdk.Context // prepared worlds: 0 = plain, 1 = compass sc2 uploaded and hand-over pending, 2 = snapshot s2 live and re-published once
-	idBase   [3]uint64      // real message id = idBase + model id
-	reg      [3]*registry
-	prepErr  [3]string // why a prepared world is not available (histories that need it are reported as skipped)
+	base     [4]sdk.Context // prepared worlds: 0 = plain, 1 = compass sc2 uploaded and hand-over pending, 2 = snapshot s2 live and re-published once
+	idBase   [4]uint64      // real message id = idBase + model id
+	reg      [4]*registry
+	prepErr  [4]string // why a prepared world is not available (histories that need it are reported as skipped)
 }
 
 // registry gives small integers to data / tx hashes / evidence identities
@@ -247,7 +247,8 @@ func newWorld() *world {
 	w.base[0] = c0
 	w.reg[0] = newRegistry()
 	w.idBase[0] = w.probeNextID(c0) - 1
-	w.prepare(1, func() { w.prepareWorld1(ctx) })
+	w.prepare(1, func() { w.prepareWorld1(ctx, 1, "usc") })
+	w.prepare(3, func() { w.prepareWorld1(ctx, 3, "uscn") }) // same, the upload message carried no constructor input
 	w.prepare(2, func() { w.prepareWorld2(ctx) })
 	return w
 }
@@ -262,31 +263,33 @@ func (w *world) prepare(i int, f func()) {
 }
 
 // world 1: the new compass really uploaded and attested, hand-over message pending
-func (w *world) prepareWorld1(ctx sdk.Context) {
+func (w *world) prepareWorld1(ctx sdk.Context, wi int, kind string) {
 	c1, _ := ctx.CacheContext()
 	r := w.newRun(c1, newRegistry(), w.idBase[0])
-	if res, _ := r.step(drv.Step{Act: "Enqueue", Args: json.RawMessage(`{"kind":"usc"}`)}); res != "ok" {
-		panic("world 1: enqueue usc " + res)
+	res, x := r.step(drv.Step{Act: "Enqueue", Args: json.RawMessage(`{"kind":"` + kind + `"}`)})
+	if res != "ok" {
+		panic(fmt.Sprint("world ", wi, ": enqueue ", kind, " ", res, x))
 	}
+	up := x["id"].(int) // 1, or 2 when the regular upload message was replaced
 	for _, v := range []int{1, 2} {
-		a := fmt.Sprintf(`{"v":%d,"m":1,"t":"tx","of":1,"k":1,"corr":"none","st":"ok","n":1}`, v)
+		a := fmt.Sprintf(`{"v":%d,"m":%d,"t":"tx","of":%d,"k":1,"corr":"none","st":"ok","n":1}`, v, up, up)
 		if res, x := r.step(drv.Step{Act: "Evidence", Args: json.RawMessage(a)}); res != "ok" {
-			panic(fmt.Sprint("world 1: evidence ", res, x))
+			panic(fmt.Sprint("world ", wi, ": evidence ", res, x))
 		}
 	}
 	r.step(drv.Step{Act: "EndBlock", Args: json.RawMessage(`{}`)})
 	found := false
 	for _, q := range r.observe()["queue"].([]any) {
-		if q.(map[string]any)["kind"] == "handover" && q.(map[string]any)["id"] == 2 {
+		if q.(map[string]any)["kind"] == "handover" && q.(map[string]any)["id"] == up+1 {
 			found = true
 		}
 	}
 	if !found {
-		panic("world 1: no hand-over message after the compass upload")
+		panic(fmt.Sprint("world ", wi, ": no hand-over message after the compass upload"))
 	}
-	w.base[1] = r.ctx
-	w.reg[1] = r.reg
-	w.idBase[1] = w.idBase[0] + 1 // model: the pending hand-over message has id 1
+	w.base[wi] = r.ctx
+	w.reg[wi] = r.reg
+	w.idBase[wi] = w.idBase[0] + uint64(up) // model: the upload message had id 0, the pending hand-over message has id 1
 }
 
 // world 2: s2 went live (message 0 of the model) and was published again (message 1); both transactions are used up
@@ -399,6 +402,8 @@ func (r *run) valIdxByValStr(a string) int {
 	return 0
 }
 
+func isUsc(kind string) bool { return kind == "usc" || kind == "uscn" }
+
 func kindOf(m *et.Message) string {
 	switch m.GetAction().(type) {
 	case *et.Message_SubmitLogicCall:
@@ -406,6 +411,9 @@ func kindOf(m *et.Message) string {
 	case *et.Message_UpdateValset:
 		return "valset"
 	case *et.Message_UploadSmartContract:
+		if len(m.GetUploadSmartContract().GetConstructorInput()) == 0 {
+			return "uscn" // upload message without constructor input: the call data is the bytecode alone
+		}
 		return "usc"
 	case *et.Message_CompassHandover:
 		return "handover"
@@ -523,11 +531,21 @@ func (r *run) refEncode(m ct.QueuedSignedMessageI, k int, corr string) ([]byte, 
 		if has(corr, "bytecode") {
 			bc = flipBytes(bc)
 		}
-		if has(corr, "ctor") {
+		if has(corr, "ctor") && len(ci) >= 32 {
 			ci = append([]byte{}, ci...)
 			ci[31] ^= 1 // last byte of the compass id
 		}
 		data = append(append([]byte{}, bc...), ci...)
+		if has(corr, "ctorargs") {
+			// constructor arguments of the relayer's choosing behind the (complete) valid data
+			var id [32]byte
+			copy(id[:], "relayer-chosen-compass-id")
+			extra, err := w.abi.Pack("", id, big.NewInt(0), big.NewInt(0), valsetT{ValsetId: big.NewInt(1), Validators: []common.Address{common.HexToAddress(feeMgrAddr)}, Powers: []*big.Int{big.NewInt(1 << 32)}}, common.HexToAddress(feeMgrAddr))
+			if err != nil {
+				return nil, err
+			}
+			data = append(data, extra...)
+		}
 	} else {
 		live, err := w.e.Valset.GetLatestSnapshotOnChain(r.ctx, chain)
 		if err != nil {
@@ -666,8 +684,18 @@ func (r *run) refEncode(m ct.QueuedSignedMessageI, k int, corr string) ([]byte, 
 			return nil, err2
 		}
 	}
+	// strict extensions of the encoding: trailing word / single trailing byte, leading word / single leading byte
 	if has(corr, "append") {
 		data = append(data, make([]byte, 32)...)
+	}
+	if has(corr, "append1") {
+		data = append(data, 0x01)
+	}
+	if has(corr, "prepend") {
+		data = append(make([]byte, 32), data...)
+	}
+	if has(corr, "prepend1") {
+		data = append([]byte{0x01}, data...)
 	}
 	if has(corr, "trunc") {
 		data = data[:len(data)-32]
@@ -693,7 +721,7 @@ func (r *run) buildTx(a args) (*ethtypes.Transaction, error) {
 		if err != nil {
 			return nil, err
 		}
-		c = callData{data: data, create: kindOf(r.evmMsg(m)) == "usc"}
+		c = callData{data: data, create: isUsc(kindOf(r.evmMsg(m)))}
 		r.reg.calls[key] = c
 	}
 	to := common.HexToAddress(compassAddr1)
@@ -743,7 +771,7 @@ func (r *run) observe() map[string]any {
 		sort.Slice(evs, func(i, j int) bool { return evs[i].(map[string]any)["v"].(int) < evs[j].(map[string]any)["v"].(int) })
 		enc := []int{}
 		n := len(m.GetSignData())
-		if kind == "usc" {
+		if isUsc(kind) {
 			n = 1
 		}
 		for k := 1; k <= n; k++ {
@@ -912,6 +940,32 @@ func (r *run) step(s drv.Step) (res string, extra map[string]any) {
 					return err
 				}
 				return e.Evm.SetAsCompassContract(r.ctx, &et.SmartContract{Id: sc.ID, AbiJSON: sc.Abi, Bytecode: sc.Bytecode})
+			case "uscn":
+				// the regular way creates the deployment record and an upload message with constructor input; that
+				// message is replaced (DeleteJob + AddUploadSmartContractToConsensus, the call retries use) by one without
+				sc, err := e.Evm.QueryGetSmartContract(r.ctx, &et.QueryGetSmartContractRequest{SmartContractID: r.w.sc2})
+				if err != nil {
+					return err
+				}
+				if err := e.Evm.SetAsCompassContract(r.ctx, &et.SmartContract{Id: sc.ID, AbiJSON: sc.Abi, Bytecode: sc.Bytecode}); err != nil {
+					return err
+				}
+				for _, m := range r.msgs() {
+					if before[m.GetId()] {
+						continue
+					}
+					up := r.evmMsg(m).GetUploadSmartContract()
+					if up == nil {
+						continue
+					}
+					if err := e.Consensus.DeleteJob(r.ctx, queueName, m.GetId()); err != nil {
+						return err
+					}
+					before[m.GetId()] = true
+					_, err := e.Evm.AddUploadSmartContractToConsensus(r.ctx, chain, &et.UploadSmartContract{Id: up.Id, Bytecode: up.Bytecode, Abi: up.Abi})
+					return err
+				}
+				return nil
 			case "uusc":
 				_, err := e.Evm.CreateUserSmartContractDeployment(r.ctx, r.w.userVal, r.w.userID, chain)
 				return err
